@@ -1,7 +1,15 @@
 // S2 — decoder kernels; included as a child module of collections::str::lossy (private items).
+#[cfg(not(test))]
 macro_rules! vassert {
     ($cond:expr, $msg:literal) => {
         kani::cover!(!($cond), $msg)
+    };
+}
+// native replay (cargo kani playback compiles with cfg(test)): a real assertion
+#[cfg(test)]
+macro_rules! vassert {
+    ($cond:expr, $msg:literal) => {
+        assert!($cond, $msg)
     };
 }
 include!("utf8_spec.rs");
